@@ -77,7 +77,7 @@ def _c01(seed, quick):
     n, b = (140, 40) if quick else (2000, 400)
     m, mb = (25, 40) if quick else (500, 400)
     return {
-        "shards": seq_shards("C01", seed, n, b, shards=7) + conc_shards("C01", seed, "mixed", m, mb, shards=7) + conc_shards("C01", seed, "update-sweep", 120 if quick else 3000, mb, shards=1) + conc_shards("C01", seed, "sweep-other-key", 144 if quick else 3000, mb, shards=1),
+        "shards": seq_shards("C01", seed, n, b, shards=6) + comp_shards("C01", seed, "c06", 2000 if quick else 40000, b, shards=1) + conc_shards("C01", seed, "mixed", m, mb, shards=7) + conc_shards("C01", seed, "update-sweep", 120 if quick else 3000, mb, shards=1) + conc_shards("C01", seed, "sweep-other-key", 144 if quick else 3000, mb, shards=1),
         "rule": SEQ_RULE + " " + CONC_RULE,
         "explanation": "Online invariant: every change of the total weight emits WeightChanged{site,new_total,max} under the total's own write lock "
                        "(add / update / delete); the recorder asserts 0 <= new_total <= max at that instant. Two observer threads spin on the public "
@@ -151,8 +151,8 @@ def _c11(seed, quick):
     m, mb = (12, 40) if quick else (300, 420)
     return {
         # thorough only: the two real-time cases (a 12 s stall behind a full queue, 62 s without a write)
-        "shards": conc_shards("C11", seed, "burst", m, mb, shards=13 if quick else 11) + conc_shards("C11", seed, "held-client", 600 if quick else 20000, mb, shards=2)
-                  + conc_shards("C11", seed, "drop-backlog", 200 if quick else 20000, mb, shards=1)
+        "shards": conc_shards("C11", seed, "burst", m, mb, shards=12 if quick else 10) + conc_shards("C11", seed, "held-client", 600 if quick else 20000, mb, shards=2)
+                  + conc_shards("C11", seed, "drop-backlog", 200 if quick else 20000, mb, shards=1) + conc_shards("C11", seed, "shutdown", 400 if quick else 20000, mb, shards=1)
                   + ([] if quick else conc_shards("C11", seed, "idle", 1, 200, shards=2)),
         "rule": "Bursts of 10-300 un-awaited writes from 1-16 threads, command_buffer_size in {1,2,3,8,32768}, worker slowed at its dequeue / before its acknowledgement "
                 "so that the queue really fills. distinct = hash of the execution order (thread, per-thread sequence number); non-trivial = at least 10 queued "
@@ -192,7 +192,8 @@ def _c12(seed, quick):
 def _c13(seed, quick):
     m, mb = (400, 40) if quick else (40000, 420)
     return {
-        "shards": conc_shards("C13", seed, "shutdown", m, mb),
+        # S-mode histories in which the command worker dies (recorded C17 findings) end with shutdown(): it must return and every read be absent
+        "shards": conc_shards("C13", seed, "shutdown", m, mb, shards=14) + seq_shards("C13", seed, 60 if quick else 2000, mb, shards=2),
         "rule": "2-16 writer threads in tight loops, 1-3 threads calling shutdown() at random points (also concurrently), command_buffer_size in {1,2,8}, seeded "
                 "perturbation at the shutdown / send / worker schedule points; every third case holds one write between the flag check and the send until Shutdown "
                 "is queued. distinct = (commands that ran, commands behind Shutdown, thread counts); non-trivial = some commands ran before the Shutdown command.",
@@ -272,7 +273,7 @@ def _c08_extra(seed, quick):
 def _c07_extra(seed, quick):
     return (conc_shards("C07", seed, "same-key", 24 if quick else 400, 40 if quick else 400, shards=1) + conc_shards("C07", seed, "held-client", 600 if quick else 20000, 40 if quick else 400, shards=1)
             + conc_shards("C07", seed, "mixed", 40 if quick else 600, 40 if quick else 400, shards=3) + conc_shards("C07", seed, "locked-shard", 24 if quick else 2000, 40 if quick else 400, shards=1)
-            + conc_shards("C07", seed, "fanout", 30 if quick else 3000, 40 if quick else 400, shards=1) + conc_shards("C07", seed, "sweep-other-key", 144 if quick else 3000, 40 if quick else 400, shards=1) + conc_shards("C07", seed, "held-ref", 40 if quick else 3000, 40 if quick else 400, shards=1))
+            + conc_shards("C07", seed, "fanout", 30 if quick else 3000, 40 if quick else 400, shards=1) + conc_shards("C07", seed, "sweep-other-key", 144 if quick else 3000, 40 if quick else 400, shards=1) + conc_shards("C07", seed, "held-ref", 40 if quick else 3000, 40 if quick else 400, shards=1) + conc_shards("C07", seed, "release", 150 if quick else 20000, 40 if quick else 400, shards=1))
 
 
 def _c03_extra(seed, quick):
